@@ -277,7 +277,10 @@ func SolveGen(g *Gen, opts SolveOpts, stats *SolverStats) {
 				defer wg.Done()
 				d, qa := obligationQuery(o)
 				f := filepath.Join(dir, fmt.Sprintf("q%04d.smt2", i))
-				os.WriteFile(f, []byte(prefix+fmt.Sprintf("%s\n(assert %s)\n(check-sat)\n", d, qa)), 0o644)
+				// the fresh process gets the assumptions without the facts about ghost arrays the goal does not mention
+				// (slicePrefix); what it leaves open is put to the full query in pass 2
+				pfx, ds, _ := sliceQuery(prefix, d, qa)
+				os.WriteFile(f, []byte(pfx+fmt.Sprintf("%s\n(assert %s)\n(check-sat)\n", ds, qa)), 0o644)
 				solverPool <- struct{}{}
 				t0 := time.Now()
 				out, _ := runCmd(time.Duration(opts.QuickMs+5000)*time.Millisecond, append(append([]string{}, solverCmd["z3-5.1.0"]...), fmt.Sprintf("-t:%d", opts.QuickMs), fmt.Sprintf("smt.random_seed=%d", opts.Seed), f))
@@ -425,6 +428,11 @@ func raceOnce(o *Obligation, prefix, file string, opts SolveOpts, stats *SolverS
 		solver, ans, out string
 		d                time.Duration
 	}
+	fileS := strings.TrimSuffix(file, ".smt2") + ".sliced.smt2"
+	if pfx, ds, n := sliceQuery(prefix, d, qa); n > 0 && len(opts.Solvers) == 0 {
+		os.WriteFile(fileS, []byte(pfx+fmt.Sprintf("%s\n(assert %s)\n(check-sat)\n", ds, qa)), 0o644)
+		solvers = append(append([]string{}, solvers...), "z3-5.1.0/sliced")
+	}
 	ctx, cancel := context.WithCancel(context.Background())
 	defer cancel()
 	ch := make(chan res, len(solvers))
@@ -434,8 +442,12 @@ func raceOnce(o *Obligation, prefix, file string, opts SolveOpts, stats *SolverS
 			if strings.HasPrefix(s, "cvc5") {
 				f = fileC
 			}
+			sliced := strings.HasSuffix(s, "/sliced")
+			if sliced {
+				f = fileS
+			}
 			t0 := time.Now()
-			out, _ := runCmdCtx(ctx, time.Duration(opts.RaceMs+3000)*time.Millisecond, solverArgs(s, f, opts.RaceMs, opts.Seed))
+			out, _ := runCmdCtx(ctx, time.Duration(opts.RaceMs+3000)*time.Millisecond, solverArgs(strings.TrimSuffix(s, "/sliced"), f, opts.RaceMs, opts.Seed))
 			ans := "unknown"
 			for _, ln := range strings.Split(out, "\n") {
 				ln = strings.TrimSpace(ln)
@@ -443,6 +455,9 @@ func raceOnce(o *Obligation, prefix, file string, opts SolveOpts, stats *SolverS
 					ans = ln
 					break
 				}
+			}
+			if sliced && ans == "sat" {
+				ans = "unknown" // a model of fewer assumptions refutes nothing
 			}
 			ch <- res{s, ans, out, time.Since(t0)}
 		}(s)
